@@ -152,6 +152,11 @@ func realSchedule(c *kit.Ctx, id string, i int) {
 	m.reset(100, idx)
 	var log []string
 	commits, bad := 0, false
+	type pendingCommit struct {
+		ev ucon.CommitEvent
+		n  int
+	}
+	var pendC []*pendingCommit
 	ucon.VerifOnVote = func(v *ucon.Voter, vt ucon.VoteType, msg *ucon.BlockHashWithVotes) {
 		if v != voter {
 			return
@@ -206,6 +211,36 @@ func realSchedule(c *kit.Ctx, id string, i int) {
 			c.Violation("commit-header-rejected-by-verifier", fmt.Sprintf("the header assembled from the commit's vote set (%d votes) is rejected by the real header verifier: %v", len(uc.ChamberCommitters), verr), log)
 			bad = true
 		}
+		pendC = append(pendC, &pendingCommit{ev: *ev, n: len(uc.ChamberCommitters)})
+	}
+	// Server.commit packs the event asynchronously: pack and verify it once more after later deliveries
+	repack := func() {
+		for _, p := range pendC {
+			if bad {
+				return
+			}
+			uc, err := voter.PackVotes(p.ev, params.LookBackPos)
+			if err != nil {
+				c.Violation("commit-pack-votes-failed", "late packing: "+err.Error(), log)
+				bad = true
+				return
+			}
+			vb, _ := uc.ValidatorsToByte()
+			hd := p.ev.Block.Header()
+			hd.Validator = vb
+			blk := p.ev.Block.WithSeal(hd)
+			var verr error
+			if g := kit.Guard(func() {
+				verr = rw.srv.VerifySideChainHeader(&cp, rw.seedH, set.Reader, nil, nil, blk, []*types.Block{types.NewBlockWithHeader(rw.parent)})
+			}); g != nil {
+				verr = fmt.Errorf("panic: %v", g)
+			}
+			c.Count("commit_headers_verified_after_later_deliveries", 1)
+			if verr != nil {
+				c.Violation("commit-header-rejected-by-verifier:packed-after-later-votes", fmt.Sprintf("the CommitEvent carried %d votes when it was announced; packed after later deliveries (as the asynchronous consumer does) it carries %d and the real header verifier rejects the header: %v", p.n, len(uc.ChamberCommitters), verr), log)
+				bad = true
+			}
+		}
 	}
 	defer func() { ucon.VerifOnVote, ucon.VerifOnCommit = nil, nil }()
 	steps := []uint32{ucon.UConStepPrevote, ucon.UConStepPrecommit}
@@ -256,6 +291,32 @@ func realSchedule(c *kit.Ctx, id string, i int) {
 			equiv++
 		}
 		voter.VerifProcessVote(p.m.Addr, data, p.vt)
+	}
+	// members of an announced commit equivocate afterwards (another block, same round/index/step)
+	if len(pendC) > 0 && !bad {
+		var oh common.Hash
+		r.Read(oh[:])
+		if len(proposals) > 1 {
+			oh = proposals[1].Hash()
+		}
+		late := 0
+		for _, mm := range set.Members[1:] {
+			if _, in := pendC[0].ev.ChamberPrecommits[mm.Addr]; !in {
+				continue
+			}
+			cr := set.Sortition(mm, rw.seed, idx, uint32(ucon.Precommit), T)
+			if cr.J < 1 || oh == pendC[0].ev.Block.Hash() {
+				continue
+			}
+			vote := forge.SignVote(mm, cr, oh, round, idx, uint32(ucon.Precommit), rw.seed)
+			data := &ucon.BlockHashWithVotes{Priority: common.Hash{1}, BlockHash: oh, Round: round, RoundIndex: idx, Vote: &vote.SV}
+			log = append(log, fmt.Sprintf("recv late equivocating precommit %x w%d from #%d", oh[:3], cr.J, mm.I))
+			m.deliver(mm.Addr, ucon.Precommit, oh, cr.J)
+			voter.VerifProcessVote(mm.Addr, data, ucon.Precommit)
+			late++
+			repack()
+		}
+		c.Count("real_late_equivocations", late)
 	}
 	c.Count("real_commits", commits)
 	c.Count("real_equivocations", equiv)
